@@ -166,10 +166,12 @@ def run(seed, tier, lean) -> Result:
     for i, (spec, inst) in enumerate(cases):
         res.evaluations += 1
         try:
-            from ..common import time_limit
+            from ..common import time_limit, CaseTimeout
             with time_limit(45):
                 keep = {}
                 probs, o1, labels = check_case(spec, inst, res, keep=keep)
+        except CaseTimeout:
+            res.bump('skipped: the real code ran for more than 45 s on this case'); firsts.append(None); continue
         except Exception as e:
             res.notes.append(f'case skipped: {type(e).__name__}: {str(e)[:60]}'); firsts.append(None); continue
         firsts.append((o1, labels))
